@@ -310,11 +310,42 @@ fn check_ids(ids: &[u8], big_endian: bool) -> CheckResult {
                     }
                 }
             }
+            // the same ids in a control message with a one-byte payload: every cut from the end of the standard header on
+            // is incomplete, with a hint no larger than what is missing
+            {
+                let mut cb = b[..16 + 4 + 4].to_vec();
+                cb[16] = 0x20 | UEH | WEID | if big_endian { MSBF } else { 0 };
+                cb.extend_from_slice(&[0x26, 0]);
+                cb.extend_from_slice(&ids[8..16]);
+                cb.push(0x01);
+                let l = (cb.len() - 16) as u16;
+                cb[18..20].copy_from_slice(&l.to_be_bytes());
+                for cut in 24..cb.len() {
+                    let r = guard(|| dlt_message(&cb[..cut], None, true).map(|(rest, pm)| (rest.len(), pm))).map_err(|p| Violation::from_panic(&format!("dlt_message on {}", hex_short(&cb[..cut])), &p))?;
+                    match r {
+                        Err(dlt_core::parse::DltParseError::IncompleteParse { needed }) => {
+                            if let Some(n) = needed {
+                                if n.get() > cb.len() - cut {
+                                    return Err(viol!("ids:control:hint", "control message with id bytes {} cut at {} of {}: hint {} exceeds the {} missing bytes", hex_short(ids), cut, cb.len(), n, cb.len() - cut));
+                                }
+                            }
+                        }
+                        other => return Err(viol!("ids:control:not-incomplete", "control message with id bytes {} cut at {} of {}: expected incomplete, got {}", hex_short(ids), cut, cb.len(), short_dbg(&other))),
+                    }
+                }
+            }
             // "with fewer than n bytes available it reports incomplete": the buffer ends inside each of the four id
             // fields in turn (0..3 of its bytes present), without and with junk in front of the storage header; any
             // hint must not exceed the bytes that are missing
             let field_starts = [12usize, 20, 26, 30];
-            for junk in [&b""[..], &b"x"[..], &b"junkDLTjunk, more junk"[..], &b"tornDLT"[..], &b"DL"[..]] {
+            // (one junk prefix repeats the record's own header ECU id bytes at the offset a storage ECU id has in a record)
+            let mut mirror = vec![b'j'; 12];
+            mirror.extend_from_slice(&ids[4..8]);
+            mirror.extend_from_slice(b"jj");
+            if mirror.windows(4).any(|w| w == b"DLT\x01") || mirror.ends_with(b"D") || mirror.ends_with(b"DL") || mirror.ends_with(b"DLT") {
+                mirror = vec![b'j'];
+            }
+            for junk in [&b""[..], &b"x"[..], &b"junkDLTjunk, more junk"[..], &b"tornDLT"[..], &b"DL"[..], &mirror[..]] {
                 let mut buf = junk.to_vec();
                 buf.extend_from_slice(&b);
                 if !junk.is_empty() {
